@@ -88,7 +88,10 @@ static void check(const std::string &pat, const refmatch::Pattern &rp, const std
 {
     Verdict v = !refpath ? refmatch::MUST_NOT : tv[ti];
     bool got = rtosc_match(pat.c_str(), g_msg, nullptr);
-    vp::transition();
+    // the optional out-parameter must not change the verdict
+    { const char *pe = nullptr; bool got2 = rtosc_match(pat.c_str(), g_msg, &pe);
+      if(got2 != got) vp::violation("verdict-depends-on-path_end|rtosc_match|" + features(pat), "p=" + pat + "|a=" + addr + "|t=" + TYPES[ti], "pattern '" + pat + "' address '" + addr + "': " + (got ? "true" : "false") + " with path_end == NULL, " + (got2 ? "true" : "false") + " with a pointer"); }
+    vp::transition(2);
     if(v == refmatch::DONT_CARE) { ++g_dc; return; }
     if(v == refmatch::MUST) ++g_must; else ++g_mustnot;
     if((v == refmatch::MUST) == got) return;
@@ -209,6 +212,13 @@ int main(int argc, char **argv)
             run_pattern(x.first, av);
         }
         vp::bound("long_family", "literal segments of 10..60 characters, 3 long alternatives, 8 alternatives with a 4-digit enumeration, five segments: exact address and every single-character insertion/removal/substitution");
+    }
+    // ---- alternative groups in the middle of a pattern and alternatives that end in digits, against every address of length 0..6 over 'ab/c012'
+    if(vp::mine(2)) {
+        std::vector<std::string> as = {""}; { std::vector<std::string> cur = {""}; for(int l = 1; l <= 6; ++l) { std::vector<std::string> nx; for(auto &x : cur) for(char c : std::string("ab/c012")) nx.push_back(x + c); as.insert(as.end(), nx.begin(), nx.end()); cur.swap(nx); } }
+        for(const char *pt : {"{a,b}/c", "{a,b}/{a,b}", "{a,b}/{b,a}/c", "c#3/{a,b}/c", "{a,b}#3/c", "{a,a1}#3/c", "{a1,a}#3", "{b,b2}#3", "{a,a0,a01}#2", "{a,b}/c/", "{ab,a}/b/c", "{a,b}c/{a,b}"})
+            for(const char *sp : {"", ":i"}) run_pattern(std::string(pt) + sp, as);
+        vp::bound("group_family", "12 patterns with an alternative group followed by '/' inside the pattern or by '#N', alternatives ending in digits: every address of length 0..6 over 'ab/c012'");
     }
     vp::outcome("verdict:must-match", g_must); vp::outcome("verdict:must-not-match", g_mustnot); vp::outcome("verdict:dont-care(type extension)", g_dc);
     return vp::finish();
